@@ -106,7 +106,8 @@ def _work(item):
             keys = [kv[0] for kv in concretise_mixed(g, lst, lst['tuples'][0], use_names)]
             unpop = any(i not in g.cells for i in lst['ids'])
             overlap = bool(set(lst['ids']) & set(outs))
-            hazard = L.range_override_hazard(g, ovset)
+            hazard = L.range_override_hazard(g, ovset) or bool(
+                use_names and L.name_override_hazard(g, ovset))
             try:
                 func = m.compile(inputs=keys, outputs=[G.node_name(i) for i in outs])
             except BaseException as ex:  # noqa
@@ -138,6 +139,14 @@ def _work(item):
                     c = R.node_value(sol, g, i)
                     out['n'] += 1
                     if i in exp and not V.matches(exp[i], o):
+                        if hazard and c is not None and V.show(c) == V.show(o):
+                            # the value supplied through a range / name does not reach a
+                            # formula (or unpopulated) member in calculate() either: the
+                            # compiled function equals the full calculation, which is what
+                            # C08 states; the deviation of calculate() itself is recorded
+                            # under C07 (range-override-with-unpopulated-or-formula-member)
+                            out['agree_with_calculate'] = out.get('agree_with_calculate', 0) + 1
+                            continue
                         out['problems'].append({
                             'kind': 'compiled-vs-sem', 'list': li, 'tuple': ti, 'cell': i,
                             'inputs': keys, 'args': {k_: V.show(x) for k_, x in tup.items()},
